@@ -18,6 +18,9 @@ type binding struct {
 	Ctor  string // ID, Value, Sprintf, Snippets, Func, Comment, GoDirective, Block, T, PkgExpose, StructFieldsCopy, other
 	Expr  ast.Expr
 	Const bool // name is a compile-time constant
+	// Alts: every value the binding can have when it is a local that is assigned on several branches
+	// (`if replaced { t = ID(a) } else { t = ID(b) }`); Expr is the first of them
+	Alts []ast.Expr
 }
 
 type templateSite struct {
@@ -150,7 +153,33 @@ func (s *templateSite) addArg(info *types.Info, a ast.Expr) {
 				continue
 			}
 			name, isC := core.ConstString(info, kv.Key)
-			s.Bindings = append(s.Bindings, binding{Name: name, Ctor: ctorOf(info, resolve(kv.Value)), Expr: resolve(kv.Value), Const: isC})
+			bnd := binding{Name: name, Ctor: ctorOf(info, resolve(kv.Value)), Expr: resolve(kv.Value), Const: isC, Alts: []ast.Expr{resolve(kv.Value)}}
+			// a local assigned on several branches: one constructor kind for all of them, or "other"
+			if v := core.VarOf(info, kv.Value); v != nil && s.F != nil && s.F.Root().Body != nil && !v.IsField() {
+				if defs := core.DefsOf(info, s.F.Root().Body, v); len(defs) > 1 {
+					bnd.Alts = nil
+					ctor := ""
+					for _, d := range defs {
+						if d.Rhs == nil {
+							continue // `var t Snippet`
+						}
+						if d.Index >= 0 {
+							ctor = "other"
+							continue
+						}
+						bnd.Alts = append(bnd.Alts, d.Rhs)
+						if c := ctorOf(info, d.Rhs); ctor == "" {
+							ctor = c
+						} else if ctor != c {
+							ctor = "other"
+						}
+					}
+					if ctor != "" && len(bnd.Alts) > 0 {
+						bnd.Ctor, bnd.Expr = ctor, bnd.Alts[0]
+					}
+				}
+			}
+			s.Bindings = append(s.Bindings, bnd)
 			if !isC {
 				s.OpenArgs = true
 			}
